@@ -26,7 +26,8 @@ import (
 )
 
 // vfC18Spec: what each thread does. "r:<file>" = Open+Walk+Read+Attributes (vfDumpFile) of a
-// corpus file; "f:<file>" = an Open that is expected to fail; "w" = CreateForWrite + dataset + attributes + Close, then dump of the result.
+// corpus file; "f:<file>" = an Open that is expected to fail; "wd" = a writer session with
+// attribute deletions, closed, reopened for modification, more deletions and writes; "w" = CreateForWrite + dataset + attributes + Close, then dump of the result.
 type vfC18Spec struct {
 	Threads []string `json:"threads"`
 	Bound   int      `json:"bound"`
@@ -82,9 +83,70 @@ func vfC18Result(res string) string {
 	return t.String()
 }
 
+// vfC18WriteDel is a writer session with attribute deletions: three compact attributes, the
+// first one deleted (not the last message of the header), another written, the file closed;
+// then the file reopened for modification, the dataset handle re-acquired, the middle
+// attribute deleted and one more written.
+func vfC18WriteDel(path string) (string, error) {
+	fw, err := CreateForWrite(path, CreateTruncate)
+	if err != nil {
+		return "", err
+	}
+	ds, err := fw.CreateDataset("/d", Float64, []uint64{4})
+	if err != nil {
+		_ = fw.Close()
+		return "", err
+	}
+	if err := ds.Write([]float64{1, 2, 3, 4}); err != nil {
+		_ = fw.Close()
+		return "", err
+	}
+	for i := 0; i < 3; i++ {
+		if err := ds.WriteAttribute(fmt.Sprintf("a%d", i), int32(7+i)); err != nil {
+			_ = fw.Close()
+			return "", err
+		}
+	}
+	if err := ds.DeleteAttribute("a0"); err != nil {
+		_ = fw.Close()
+		return "", err
+	}
+	if err := ds.WriteAttribute("b", "after-delete"); err != nil {
+		_ = fw.Close()
+		return "", err
+	}
+	if err := fw.Close(); err != nil {
+		return "", err
+	}
+	fw, err = OpenForWrite(path, OpenReadWrite)
+	if err != nil {
+		return "", err
+	}
+	ds, err = fw.OpenDataset("/d")
+	if err != nil {
+		_ = fw.Close()
+		return "", err
+	}
+	if err := ds.DeleteAttribute("a1"); err != nil {
+		_ = fw.Close()
+		return "", err
+	}
+	if err := ds.WriteAttribute("c", int32(42)); err != nil {
+		_ = fw.Close()
+		return "", err
+	}
+	if err := fw.Close(); err != nil {
+		return "", err
+	}
+	return "written:" + path, nil
+}
+
 func vfC18Do(what string, idx int, scratch string) (string, error) {
 	if what == "w" {
 		return vfC18Write(filepath.Join(scratch, fmt.Sprintf("c18w%d.h5", idx)))
+	}
+	if what == "wd" {
+		return vfC18WriteDel(filepath.Join(scratch, fmt.Sprintf("c18wd%d.h5", idx)))
 	}
 	if strings.HasPrefix(what, "f:") {
 		// an Open that is expected to fail (not an HDF5 file, too short, truncated): the error
@@ -407,7 +469,28 @@ func TestVerif_C18(t *testing.T) {
 			}
 		}
 	}
+	// single-threaded: the writer sessions under the adversarial pool (a buffer released while
+	// still referenced is poisoned at once) must produce the same file as under the stock pool
+	for _, w := range []string{"w", "wd"} {
+		vsync.SetAdversarial(false)
+		want, errW := vfC18Do(w, 200, scratch)
+		want = vfC18Result(want)
+		vsync.SetAdversarial(true)
+		vsync.PoolDoublePuts = 0
+		got, errG := vfC18Do(w, 201, scratch)
+		dbl := vsync.PoolDoublePuts
+		vsync.SetAdversarial(false)
+		got = vfC18Result(got)
+		r.Case("writer-session-under-adversarial-pool:" + w)
+		if dbl > 0 {
+			r.Fail("pooled-buffer-released-twice/handles:single-thread", map[string]any{"writer": w})
+		}
+		if (errW == nil) != (errG == nil) || want != got {
+			r.Fail("result-differs-from-sequential/handles:writer-adversarial-pool-single-thread", map[string]any{"writer": w, "stock": vfC18Short(want), "adversarial": vfC18Short(got), "err_stock": fmt.Sprint(errW), "err_adversarial": fmt.Sprint(errG)})
+		}
+	}
 	specs := []vfC18Spec{
+		{Threads: []string{"wd", "r:" + x.name}, Bound: bound - 1},
 		{Threads: []string{"f:" + badPath("empty"), "r:" + x.name}, Bound: bound},
 		{Threads: []string{"f:" + badPath("short7"), "r:" + x.name}, Bound: bound},
 		{Threads: []string{"f:" + badPath("text"), "r:" + x.name}, Bound: bound},
